@@ -251,7 +251,7 @@ one of them (the first). -/
 theorem C13_memory_rooms_summary (sh : Shape) (lh lw : Int) (ys xs : List Int) (colors : List Color)
     (nb ne : Int) (d : DrawSt)
     (hh : 0 ≤ sh.h) (hw : 0 ≤ sh.w) (hl : 1 ≤ lh ∧ 1 ≤ lw)
-    (sy : SplitsOK sh.h ys) (sx : SplitsOK sh.w xs) (dy : hasDup ys = false) (dx : hasDup xs = false)
+    (sy : SplitsOK sh.h ys) (sx : SplitsOK sh.w xs)
     (hp : MemRoomsParams colors nb ne) (hcn : colors.Nodup) :
     ∃ g d1, roomsGrid sh lh lw ys xs d = .ok (g, d1) ∧ RoomsGrid sh.h.toNat sh.w.toNat ys xs g ∧
       ((1 + nb.toNat + ne.toNat ≤ (floorPositions g).length ∧ ne.toNat ≤ colors.length) →
@@ -268,7 +268,7 @@ theorem C13_memory_rooms_summary (sh : Shape) (lh lw : Int) (ys xs : List Int) (
           good ∈ colors ∧ (∀ pc ∈ exits, pc.2 ∈ colors)) ∧
       (¬ (1 + nb.toNat + ne.toNat ≤ (floorPositions g).length ∧ ne.toNat ≤ colors.length) →
         resetMemoryRooms sh lh lw ys xs colors nb ne d = .error .valueError) := by
-  obtain ⟨g, d1, eg, rg⟩ := roomsGrid_spec sh lh lw ys xs d hh hw hl sy sx dy dx
+  obtain ⟨g, d1, eg, rg⟩ := roomsGrid_spec sh lh lw ys xs d hh hw hl sy sx
   refine ⟨g, d1, eg, rg, ?_, ?_⟩
   · rintro ⟨hfit, hcol⟩
     obtain ⟨s, d', cells, sample, he, hcl, cnd, cfl, hsl, snd, smem, hag, hheld, wf', gh', gw', hbe, hex, hout⟩ :=
@@ -334,7 +334,7 @@ theorem C13_memory_rooms_summary (sh : Shape) (lh lw : Int) (ys xs : List Int) (
 
 /-- non-vacuity: the shipped 7×7 parameter set (layout 2×2, three colours, 3 beacons, 2 exits) meets
 the hypotheses, and the reset succeeds on the all-zero stream -/
-example : MemRoomsParams [.red, .green, .blue] 3 2 ∧ SplitsOK 7 [0, 3, 6] ∧ hasDup [0, 3, 6] = false ∧
+example : MemRoomsParams [.red, .green, .blue] 3 2 ∧ SplitsOK 7 [0, 3, 6] ∧ tooClose [0, 3, 6] = false ∧
     (resetMemoryRooms ⟨7, 7⟩ 2 2 [0, 3, 6] [0, 3, 6] [.red, .green, .blue] 3 2 ⟨[], []⟩).toBool = true := by
   refine ⟨⟨by decide, by decide, by decide, by decide⟩, ⟨?_, rfl, rfl, by decide⟩, by decide, by decide⟩
   simp [Gapped]
